@@ -602,3 +602,855 @@ Proof.
       rewrite (nth_child_match_spec ofType n kids k Hk He 0 b true), Z.eqb_eq, <- nth_arith0. lia.
   - unfold simple_nth_child_match, simple_nth_last_child_match, nth_child_match. rewrite He. simpl. split; reflexivity.
 Qed.
+
+Close Scope Z_scope.
+
+(* ------------------------------------------------------------------ induction over selectors *)
+
+Lemma sel_ind' (P : sel -> Prop)
+  (Hleaf : forall s, match s with SRel _ _ | SCompound _ _ | SCombined _ _ _ => False | _ => True end -> P s)
+  (Hrel : forall name g, Forall P g -> P (SRel name g))
+  (Hcomp : forall sels pe, Forall P sels -> P (SCompound sels pe))
+  (Hcomb : forall a c b, P a -> P b -> P (SCombined a c b)) : forall s, P s.
+Proof.
+  fix IH 1. intros s. destruct s; try (apply Hleaf; exact I).
+  - apply Hrel. induction g; constructor; [apply IH | assumption].
+  - apply Hcomp. induction sels; constructor; [apply IH | assumption].
+  - apply Hcomb; apply IH.
+Qed.
+
+Lemma node_ind' (P : node -> Prop)
+  (H : forall ty data attrs kids, Forall P kids -> P (Node ty data attrs kids)) : forall n, P n.
+Proof.
+  fix IH 1. intros [ty data attrs kids]. apply H. induction kids; constructor; [apply IH | assumption].
+Qed.
+
+(* ------------------------------------------------------------------ tree navigation *)
+
+Section Tree.
+Variable d : node.
+
+Lemma elem_at_iff p : elem_at d p = true <-> is_element d p.
+Proof.
+  unfold elem_at, get, is_element, element. destruct (node_at d p) as [n|].
+  - rewrite is_elem_iff. split; [intros H; exists n; auto | intros [n' [E H]]; injection E as <-; exact H].
+  - split; [discriminate | intros [n' [E _]]; discriminate].
+Qed.
+
+Lemma node_at_cons k q : node_at d (k :: q) = match node_at d q with Some n => nth_error (kids_of n) k | None => None end.
+Proof. reflexivity. Qed.
+
+Lemma node_at_parent k q c : node_at d (k :: q) = Some c ->
+  exists par, node_at d q = Some par /\ nth_error (kids_of par) k = Some c.
+Proof. rewrite node_at_cons. destruct (node_at d q) as [par|]; [eauto | discriminate]. Qed.
+
+(* a valid path has valid suffixes *)
+Lemma node_at_app l q c : node_at d (l ++ q) = Some c -> exists n, node_at d q = Some n.
+Proof.
+  revert c; induction l as [|k l IH]; intros c H; simpl in *; [eauto|].
+  destruct (node_at d (l ++ q)) as [n|] eqn:E; [|discriminate]. eapply IH. reflexivity.
+Qed.
+
+(* ---- combinators over arbitrary matchers *)
+Variable m : path -> bool.
+
+Lemma any_ancestor_spec p : any_ancestor m p = true <-> exists q, ancestor q p /\ m q = true.
+Proof.
+  induction p as [|k p IH]; simpl.
+  - split; [discriminate|]. intros [q [[l [Hl E]] _]]. destruct l; [contradiction | discriminate].
+  - rewrite orb_true_iff, IH. split.
+    + intros [H | [q [[l [Hl E]] H]]].
+      * exists p. split; [exists [k]; split; [discriminate | reflexivity] | exact H].
+      * exists q. split; [exists (k :: l); split; [discriminate | simpl; congruence] | exact H].
+    + intros [q [[l [Hl E]] H]]. destruct l as [|x l]; [contradiction|]. injection E as -> E.
+      destruct l as [|y l].
+      * left. simpl in E. subst. exact H.
+      * right. exists q. split; [exists (y :: l); split; [discriminate | exact E] | exact H].
+Qed.
+
+Lemma any_prev_spec q k : any_prev m q k = true <-> exists j, j < k /\ m (j :: q) = true.
+Proof.
+  induction k as [|k IH]; simpl.
+  - split; [discriminate | intros [j [H _]]; lia].
+  - rewrite orb_true_iff, IH. split.
+    + intros [H | [j [Hj H]]]; [exists k; split; [lia | exact H] | exists j; split; [lia | exact H]].
+    + intros [j [Hj H]]. destruct (Nat.eq_dec j k) as [->|Hn]; [left; exact H | right; exists j; split; [lia | exact H]].
+Qed.
+
+Definition skippable (p : path) : Prop := exists s, node_at d p = Some s /\ (is_text s || is_comment s) = true.
+
+Lemma adjacent_loop_S q k : adjacent_loop d m q (S k) =
+  match node_at d (k :: q) with
+  | Some s => if is_text s || is_comment s then adjacent_loop d m q k else m (k :: q)
+  | None => false
+  end.
+Proof. reflexivity. Qed.
+
+Lemma adjacent_loop_spec q k : adjacent_loop d m q k = true <->
+  exists j, j < k /\ m (j :: q) = true /\
+            (exists s, node_at d (j :: q) = Some s /\ (is_text s || is_comment s) = false) /\
+            forall i, j < i < k -> skippable (i :: q).
+Proof.
+  induction k as [|k IH].
+  - simpl. split; [discriminate | intros [j [H _]]; lia].
+  - rewrite adjacent_loop_S. destruct (node_at d (k :: q)) as [s|] eqn:Es.
+    + destruct (is_text s || is_comment s) eqn:Et.
+      * rewrite IH. split.
+        -- intros [j [Hj [Hm [Hs Hb]]]]. exists j. repeat split; [lia | exact Hm | exact Hs |].
+           intros i Hi. destruct (Nat.eq_dec i k) as [->|Hn]; [exists s; auto | apply Hb; lia].
+        -- intros [j [Hj [Hm [[s' [Hs' Ht']] Hb]]]].
+           assert (j <> k) by (intros ->; congruence).
+           exists j. repeat split; [lia | exact Hm | eauto | intros i Hi; apply Hb; lia].
+      * split.
+        -- intros Hm. exists k. repeat split; [lia | exact Hm | eauto | intros i Hi; lia].
+        -- intros [j [Hj [Hm [Hs Hb]]]]. destruct (Nat.eq_dec j k) as [->|Hn]; [exact Hm|].
+           destruct (Hb k) as [s' [Hs' Ht']]; [lia|]. congruence.
+    + split; [discriminate|]. intros [j [Hj [Hm [[s' [Hs' Ht']] Hb]]]].
+      destruct (Nat.eq_dec j k) as [->|Hn]; [congruence|].
+      destruct (Hb k) as [s'' [Hs'' _]]; [lia|]. congruence.
+Qed.
+
+Lemma has_child_match_spec n p : has_child_match m n p = true <->
+  exists k, k < length (kids_of n) /\ m (k :: p) = true.
+Proof.
+  unfold has_child_match. rewrite existsb_exists. split; intros [k [H1 H2]]; exists k; (split; [|exact H2]).
+  - apply in_seq in H1. lia.
+  - apply in_seq. lia.
+Qed.
+
+(* q is reached from p by going down through element nodes *)
+Inductive reach (p : path) : path -> Prop :=
+| reach_child k c : node_at d (k :: p) = Some c -> reach p (k :: p)
+| reach_step k q n c : reach p q -> node_at d q = Some n -> is_elem n = true ->
+                       node_at d (k :: q) = Some c -> reach p (k :: q).
+
+Lemma reach_down k p c q : node_at d (k :: p) = Some c -> is_elem c = true -> reach (k :: p) q -> reach p q.
+Proof.
+  intros Hc He H. induction H as [k' c' H | k' q n c' H IH Hn Hen Hc'].
+  - eapply reach_step; [eapply reach_child; exact Hc | exact Hc | exact He | exact H].
+  - eapply reach_step; [exact IH | exact Hn | exact Hen | exact Hc'].
+Qed.
+
+Lemma reach_inv p q : reach p q ->
+  (exists k c, q = k :: p /\ node_at d q = Some c) \/
+  (exists k c, node_at d (k :: p) = Some c /\ is_elem c = true /\ reach (k :: p) q).
+Proof.
+  intros H. induction H as [k c H | k q n c H IH Hn Hen Hc].
+  - left. eauto.
+  - right. destruct IH as [[k0 [c0 [-> Hc0]]] | [k0 [c0 [Hc0 [He0 Hr]]]]].
+    + exists k0, n. repeat split; [exact Hn | exact Hen | eapply reach_child; exact Hc].
+    + exists k0, c0. repeat split; [exact Hc0 | exact He0 | eapply reach_step; eauto].
+Qed.
+
+Lemma has_descendant_match_spec : forall n p, node_at d p = Some n ->
+  (has_descendant_match m n p = true <-> exists q, reach p q /\ m q = true).
+Proof.
+  induction n as [ty data attrs kids IHk] using node_ind'. intros p Hp.
+  simpl has_descendant_match.
+  assert (Hgo : forall l k0,
+     (forall i c, nth_error l i = Some c -> node_at d ((k0 + i) :: p) = Some c) ->
+     Forall (fun c => forall p, node_at d p = Some c ->
+                      (has_descendant_match m c p = true <-> exists q, reach p q /\ m q = true)) l ->
+     ((fix go (l : list node) (k : nat) {struct l} : bool :=
+         match l with
+         | [] => false
+         | c :: r => (m (k :: p) || (is_elem c && has_descendant_match m c (k :: p))) || go r (S k)
+         end) l k0 = true
+      <-> exists i c, nth_error l i = Some c /\
+            (m ((k0 + i) :: p) = true \/ (is_elem c = true /\ exists q, reach ((k0 + i) :: p) q /\ m q = true)))).
+  { induction l as [|c r IHr]; intros k0 Hv HF.
+    - split; [discriminate | intros [i [c [H _]]]; destruct i; discriminate].
+    - inversion HF as [|? ? Hc HFr]; subst.
+      pose proof (Hv 0 c eq_refl) as Hc0. rewrite Nat.add_0_r in Hc0.
+      rewrite !orb_true_iff, andb_true_iff, (Hc _ Hc0), (IHr (S k0)); [| |exact HFr].
+      + split.
+        * intros [[H | H] | [i [c' [Hi H]]]].
+          -- exists 0, c. rewrite Nat.add_0_r. auto.
+          -- exists 0, c. rewrite Nat.add_0_r. auto.
+          -- exists (S i), c'. rewrite Nat.add_succ_r. auto.
+        * intros [[|i] [c' [Hi H]]].
+          -- simpl in Hi. injection Hi as <-. rewrite Nat.add_0_r in H. left. tauto.
+          -- right. exists i, c'. rewrite Nat.add_succ_r in H. auto.
+      + intros i c' Hi. rewrite Nat.add_succ_l, <- Nat.add_succ_r. apply Hv. exact Hi. }
+  rewrite (Hgo kids 0); [| |exact IHk].
+  - split.
+    + intros [i [c [Hi [H | [He [q [Hr Hq]]]]]]].
+      * exists (i :: p). split; [|exact H]. eapply reach_child. rewrite node_at_cons, Hp. exact Hi.
+      * exists q. split; [|exact Hq]. eapply reach_down; [rewrite node_at_cons, Hp; exact Hi | exact He | exact Hr].
+    + intros [q [Hr Hq]]. apply reach_inv in Hr as [[k [c [-> Hc]]] | [k [c [Hc [He Hr]]]]].
+      * exists k, c. split; [rewrite node_at_cons, Hp in Hc; exact Hc | left; exact Hq].
+      * exists k, c. split; [rewrite node_at_cons, Hp in Hc; exact Hc | right; eauto].
+  - intros i c Hi. change (0 + i) with i. rewrite node_at_cons, Hp. exact Hi.
+Qed.
+
+End Tree.
+
+(* ------------------------------------------------------------------ the model matches elements only *)
+
+Section Main.
+Variable d : node.
+
+Ltac kill E H :=
+  unfold attr_match, match_attribute, has_attr, atom_is, is_link_atom, is_group_atom, is_control_atom,
+         empty_match, checked_match, simple_nth_child_match, simple_nth_last_child_match,
+         nth_child_match, lang_own in H;
+  rewrite ?E in H; simpl in H; try discriminate H.
+
+Lemma matches_elem : forall s p, matches d s p = true -> elem_at d p = true.
+Proof.
+  induction s as [s Hs | name g IH | sels pe IH | a c b IHa IHb] using sel_ind'; intros p H.
+  - unfold elem_at, get.
+    destruct s; try contradiction; cbn [matches] in H;
+      unfold nth_match, only_match, enabled_match, disabled_match, get in H.
+    all: try (destruct p as [|k0 q0]; cbn [lang_match] in H; unfold get in H).
+    all: try (destruct (node_at d (k0 :: q0)) as [n|] eqn:En; [|discriminate H]).
+    all: try (destruct (node_at d []) as [n|] eqn:En; [|discriminate H]).
+    all: try (destruct (node_at d p) as [n|] eqn:En; [|discriminate H]).
+    all: destruct (is_elem n) eqn:E; [reflexivity|].
+    all: try (destruct op).
+    all: try (destruct (node_at d q0); [|discriminate H]).
+    all: try (destruct (a =? 0)%Z; [destruct last|]).
+    all: kill E H.
+    all: kill E H.
+  - cbn [matches] in H. unfold elem_at, get in *. destruct (node_at d p) as [n|]; [|discriminate H].
+    destruct (is_elem n); [reflexivity | discriminate H].
+  - cbn [matches] in H. destruct sels as [|s1 r]; [exact H|].
+    cbn [forallb] in H. apply andb_true_iff in H as [H _]. inversion IH; subst. auto.
+  - cbn [matches] in H. destruct c; unfold descendant_match, child_match, sibling_match in H;
+      apply andb_true_iff in H as [H _]; auto.
+Qed.
+
+Lemma matches_valid s p : matches d s p = true -> exists n, element d p n.
+Proof. intros H. apply matches_elem in H. apply elem_at_iff in H. exact H. Qed.
+
+(* ------------------------------------------------------------------ model = specification *)
+
+Hypothesis Hwf : dom_wf d.
+
+Lemma ex_eq_l {A} (p : A) (R : Prop) : (exists q, q = p /\ R) <-> R.
+Proof. split; [intros [q [_ H]]; exact H | intros H; exists p; auto]. Qed.
+
+Lemma leaf_iff p (b : bool) (B : node -> Prop) :
+  (forall n, node_at d p = Some n -> (b = true <-> ntype_of n = TElement /\ B n)) ->
+  (node_at d p = None -> b = false) ->
+  (b = true <-> exists q, q = p /\ exists n, element d p n /\ B n).
+Proof.
+  intros Hs Hn. rewrite ex_eq_l. unfold element. destruct (node_at d p) as [n|] eqn:En.
+  - rewrite (Hs n eq_refl). split.
+    + intros [H1 H2]. exists n. auto.
+    + intros [n' [[E H1] H2]]. injection E as <-. auto.
+  - rewrite (Hn eq_refl). split; [discriminate | intros [n' [[E _] _]]; discriminate].
+Qed.
+
+Lemma attr_exists_spec n key f P :
+  (forall a, In a (attrs_of n) -> (f (aval a) = true <-> P (aval a))) ->
+  (existsb (fun a => str_eqb (akey a) key && f (aval a)) (attrs_of n) = true <-> attribute n key P).
+Proof.
+  intros HfP. unfold attribute. rewrite existsb_exists.
+  split; intros [a [Ha H]]; exists a; (split; [exact Ha|]).
+  - apply andb_true_iff in H as [H1 H2]. apply str_eqb_eq in H1. apply (HfP a Ha) in H2. auto.
+  - destruct H as [H1 H2]. apply andb_true_iff. split; [apply str_eqb_eq; exact H1 | apply (HfP a Ha); exact H2].
+Qed.
+
+Lemma match_attribute_spec' n key f P :
+  (forall a, In a (attrs_of n) -> (f (aval a) = true <-> P (aval a))) ->
+  (match_attribute n key f = true <-> ntype_of n = TElement /\ attribute n key P).
+Proof.
+  intros HfP. unfold match_attribute. rewrite andb_true_iff, is_elem_iff, (attr_exists_spec n key f P HfP). tauto.
+Qed.
+
+Lemma some_of_map (g : list sel) (K : rel -> Prop) :
+  some_of (map (sma d) g) K <-> exists s', In s' g /\ K (sma d s').
+Proof.
+  unfold some_of. split.
+  - intros [m [Hm HK]]. apply in_map_iff in Hm as [s' [<- Hs']]. eauto.
+  - intros [s' [Hs' HK]]. exists (sma d s'). split; [apply in_map; exact Hs' | exact HK].
+Qed.
+Lemma each_of_map (g : list sel) (K : rel -> Prop) :
+  each_of (map (sma d) g) K <-> forall s', In s' g -> K (sma d s').
+Proof.
+  unfold each_of. split.
+  - intros H s' Hs'. apply H. apply in_map. exact Hs'.
+  - intros H m Hm. apply in_map_iff in Hm as [s' [<- Hs']]. auto.
+Qed.
+
+Lemma everywhere_here P s : everywhere P s -> P s.
+Proof. destruct s; simpl; tauto. Qed.
+Lemma everywhere_rel P name g s' : everywhere P (SRel name g) -> In s' g -> everywhere P s'.
+Proof. simpl. intros [_ H] Hs'. apply H. apply (in_map (everywhere P)). exact Hs'. Qed.
+Lemma everywhere_compound P sels pe s' : everywhere P (SCompound sels pe) -> In s' sels -> everywhere P s'.
+Proof. simpl. intros [_ H] Hs'. apply H. apply (in_map (everywhere P)). exact Hs'. Qed.
+Lemma everywhere_combined P a c b : everywhere P (SCombined a c b) -> everywhere P a /\ everywhere P b.
+Proof. simpl. tauto. Qed.
+
+Lemma sma_plain s p q : match s with SCombined _ _ _ => False | _ => True end -> sma d s p q -> q = p.
+Proof. destruct s; simpl; try contradiction; intros _ [H _]; exact H. Qed.
+
+(* under dom_wf, the descendants reached through element nodes are all the descendants *)
+Lemma reach_ancestor p q : reach d p q <-> (ancestor p q /\ exists c, node_at d q = Some c).
+Proof.
+  split.
+  - intros H. induction H as [k c H | k q n c H IH Hn Hen Hc].
+    + split; [exists [k]; split; [discriminate | reflexivity] | eauto].
+    + destruct IH as [[l [Hl ->]] _]. split; [exists (k :: l); split; [discriminate | reflexivity] | eauto].
+  - intros [[l [Hl ->]] [c Hc]]. revert c Hc. induction l as [|k l IH]; intros c Hc; [contradiction|].
+    destruct l as [|k2 l].
+    + eapply reach_child. exact Hc.
+    + change ((k :: k2 :: l) ++ p) with (k :: (k2 :: l) ++ p) in *.
+      destruct (node_at_parent d _ _ _ Hc) as [par [Hpar Hk]].
+      eapply reach_step; [apply (IH ltac:(discriminate) par Hpar) | exact Hpar | | exact Hc].
+      destruct (wf_leaves d Hwf _ _ Hpar) as [E | E].
+      * intros E2. rewrite E2 in Hk. destruct k; discriminate.
+      * discriminate.
+      * apply is_elem_iff. exact E.
+Qed.
+
+Lemma host_case s p :
+  matches d s p = true <-> exists q, q = p /\ exists n, element d p n /\ matches d s p = true.
+Proof.
+  rewrite ex_eq_l. split.
+  - intros H. destruct (matches_valid s p H) as [n Hn]. eauto.
+  - intros [n [_ H]]. exact H.
+Qed.
+
+Lemma combined_split a c b p :
+  spec_matches d (SCombined a c b) p <->
+  spec_matches d b p /\ exists r, combinator_rel d c r p /\ spec_matches d a r.
+Proof.
+  unfold spec_matches. cbn [sma]. split.
+  - intros [q [Hb [r [Hr Ha]]]]. split; [exact Hb | exists r; split; [exact Hr | exists q; exact Ha]].
+  - intros [Hb [r [Hr [q Ha]]]]. exists q. split; [exact Hb | exists r; split; [exact Hr | exact Ha]].
+Qed.
+
+Lemma element_not_skippable p n : element d p n -> ~ skippable d p.
+Proof.
+  intros [En Ht] [s [Es Hs]]. rewrite En in Es. injection Es as <-.
+  unfold is_text, is_comment in Hs. rewrite Ht in Hs. discriminate.
+Qed.
+
+Theorem matches_spec_aux : forall s,
+  everywhere has_args_compound s -> (doc_attrs_not_blank d \/ everywhere substr_val_ok s) ->
+  forall p, matches d s p = true <-> spec_matches d s p.
+Proof.
+  induction s as [s Hs | name g IH | sels pe IH | a c b IHa IHb] using sel_ind'; intros Hhas Hblank p.
+  - (* simple selectors *)
+    unfold spec_matches.
+    destruct s; try contradiction; cbn [sma]; try apply host_case; cbn [matches]; unfold get.
+    + (* tag *) apply leaf_iff; [intros n En; rewrite En | intros ->; reflexivity].
+      rewrite andb_true_iff, is_elem_iff, str_eqb_eq. tauto.
+    + (* class *) apply leaf_iff; [intros n En; rewrite En | intros ->; reflexivity].
+      apply match_attribute_spec'. intros a _. apply match_include_spec.
+    + (* id *) apply leaf_iff; [intros n En; rewrite En | intros ->; reflexivity].
+      apply match_attribute_spec'. intros a _. apply str_eqb_eq.
+    + (* attribute *) apply leaf_iff; [intros n En; rewrite En | intros ->; reflexivity].
+      assert (Hb : forall a, In a (attrs_of n) -> match op with OpPrefix | OpSuffix | OpSubstr => blank_case_ok (aval a) val | _ => True end).
+      { intros a Ha. destruct op; try exact I.
+        all: destruct Hblank as [Hd | Hv]; [left; apply (Hd p n a En Ha) | right; apply everywhere_here in Hv; exact Hv]. }
+      destruct op; cbn [attr_match].
+      * apply match_attribute_spec'. intros a _. tauto.
+      * apply match_attribute_spec'. intros a _. apply veq_spec.
+      * rewrite andb_true_iff, is_elem_iff, negb_true_iff, <- not_true_iff_false,
+          (attr_exists_spec n key (fun v => veq icase v val) (fun v => eq_mod_case icase v val)); [tauto|].
+        intros a _. apply veq_spec.
+      * apply match_attribute_spec'. intros a _. apply match_include_spec.
+      * apply match_attribute_spec'. intros a _. apply op_dash_spec.
+      * apply match_attribute_spec'. intros a Ha. apply op_prefix_spec. apply (Hb a Ha).
+      * apply match_attribute_spec'. intros a Ha. apply op_suffix_spec. apply (Hb a Ha).
+      * apply match_attribute_spec'. intros a Ha. apply op_substr_spec. apply (Hb a Ha).
+    + (* nth *)
+      unfold nth_match, get. apply leaf_iff; [|intros ->; reflexivity].
+      intros n En. rewrite En. destruct p as [|k q].
+      { split; [discriminate|]. intros [_ [k [q [par [others [E _]]]]]]. discriminate. }
+      destruct (node_at_parent d _ _ _ En) as [par [Hpar Hk]]. rewrite Hpar.
+      destruct (simple_nth_eq ofType n (kids_of par) k b Hk) as [S1 S2].
+      assert (Hgen : (if (a =? 0)%Z
+                      then if last then simple_nth_last_child_match b ofType n (kids_of par) k
+                           else simple_nth_child_match b ofType n (kids_of par) k
+                      else nth_child_match a b last ofType n (kids_of par) k)
+                     = nth_child_match a b last ofType n (kids_of par) k).
+      { destruct (Z.eqb_spec a 0) as [->|]; [destruct last; [exact S2 | exact S1] | reflexivity]. }
+      rewrite Hgen. destruct (is_elem n) eqn:He.
+      * rewrite (nth_child_match_spec ofType n (kids_of par) k Hk He a b last). unfold nth_position. split.
+        -- intros H. split; [apply is_elem_iff; exact He|].
+           exists k, q, par,
+             (Z.to_nat (if last then count_kids ofType (data_of n) (skipn (S k) (kids_of par))
+                        else count_kids ofType (data_of n) (firstn k (kids_of par)))).
+           split; [reflexivity|]. split; [exact Hpar|].
+           rewrite Z2Nat.id by (destruct last; apply count_kids_nonneg). split; [|exact H].
+           apply count_kids_count. rewrite Z2Nat.id by (destruct last; apply count_kids_nonneg).
+           destruct last; reflexivity.
+        -- intros [_ [k' [q' [par' [others [E [Hpar' [Hcnt Hok]]]]]]]]. injection E as <- <-.
+           rewrite Hpar in Hpar'. injection Hpar' as <-. apply count_kids_count in Hcnt.
+           destruct last; rewrite <- Hcnt; exact Hok.
+      * unfold nth_child_match. rewrite He. simpl. split; [discriminate|].
+        intros [Ht _]. apply is_elem_iff in Ht. congruence.
+    + (* only *)
+      unfold only_match, get. apply leaf_iff; [|intros ->; reflexivity].
+      intros n En. rewrite En. destruct p as [|k q].
+      { split; [discriminate|]. intros [_ [k [q [par [E _]]]]]. discriminate. }
+      destruct (node_at_parent d _ _ _ En) as [par [Hpar Hk]]. rewrite Hpar.
+      destruct (is_elem n) eqn:He; simpl negb; cbv iota.
+      * rewrite Z.eqb_eq, (count_total ofType n (kids_of par) k Hk He). unfold only_position.
+        pose proof (count_kids_nonneg ofType (data_of n) (firstn k (kids_of par))) as N1.
+        pose proof (count_kids_nonneg ofType (data_of n) (skipn (S k) (kids_of par))) as N2.
+        split.
+        -- intros H. split; [apply is_elem_iff; exact He|]. exists k, q, par.
+           split; [reflexivity|]. split; [exact Hpar|]. split; apply count_kids_count; lia.
+        -- intros [_ [k' [q' [par' [E [Hpar' [C1 C2]]]]]]]. injection E as <- <-.
+           rewrite Hpar in Hpar'. injection Hpar' as <-.
+           apply count_kids_count in C1. apply count_kids_count in C2. lia.
+      * split; [discriminate|]. intros [Ht _]. apply is_elem_iff in Ht. congruence.
+    + (* empty *) apply leaf_iff; [intros n En; rewrite En | intros ->; reflexivity].
+      unfold empty_match, empty_element. rewrite andb_true_iff, is_elem_iff, forallb_forall.
+      split; intros [Ht H]; (split; [exact Ht|]); intros c Hc; specialize (H c Hc).
+      * destruct (ntype_of c); try discriminate H; (split; [discriminate|]); try discriminate.
+        intros _ ch Hch. unfold doc_blank in H. rewrite forallb_forall in H. apply is_space_ws. apply H. exact Hch.
+      * destruct H as [H1 H2]. destruct (ntype_of c); try reflexivity; [contradiction|].
+        unfold doc_blank. apply forallb_forall. intros ch Hch. apply is_space_ws. apply H2; [reflexivity | exact Hch].
+    + (* root *) apply leaf_iff; [intros n En; rewrite En | intros ->; reflexivity].
+      unfold atom_is. rewrite andb_true_iff, is_elem_iff, str_eqb_eq.
+      split; intros [Ht H]; (split; [exact Ht|]); apply (wf_html d Hwf p n En Ht); exact H.
+    + (* never *) rewrite ex_eq_l. split; [discriminate | intros [n [_ []]]].
+  - (* :is :not :has :haschild *)
+    unfold spec_matches. cbn [sma matches]. unfold get.
+    assert (IH' : forall s', In s' g -> forall p, matches d s' p = true <-> spec_matches d s' p).
+    { intros s' Hs'. rewrite Forall_forall in IH. apply (IH s' Hs').
+      - eapply everywhere_rel; eauto.
+      - destruct Hblank as [H|H]; [left; exact H | right; eapply everywhere_rel; eauto]. }
+    apply leaf_iff; [intros n En; rewrite En | intros ->; reflexivity].
+    destruct (is_elem n) eqn:He; simpl negb; cbv iota.
+    2: { split; [discriminate | intros [Ht _]; apply is_elem_iff in Ht; congruence]. }
+    assert (Ht : ntype_of n = TElement) by (apply is_elem_iff; exact He).
+    destruct name.
+    + rewrite existsb_exists, some_of_map. split.
+      * intros [s' [Hs' H]]. split; [exact Ht|]. exists s'. split; [exact Hs'|]. apply (IH' s' Hs'). exact H.
+      * intros [_ [s' [Hs' H]]]. exists s'. split; [exact Hs' | apply (IH' s' Hs'); exact H].
+    + rewrite negb_true_iff, <- not_true_iff_false, existsb_exists, some_of_map. split.
+      * intros H. split; [exact Ht|]. intros [s' [Hs' H']]. apply H. exists s'.
+        split; [exact Hs' | apply (IH' s' Hs'); exact H'].
+      * intros [_ H] [s' [Hs' H']]. apply H. exists s'. split; [exact Hs' | apply (IH' s' Hs'); exact H'].
+    + pose proof (everywhere_here _ _ Hhas) as Hplain. simpl in Hplain.
+      rewrite (has_descendant_match_spec d _ n p En), some_of_map. split.
+      * intros [q [Hr Hq]]. split; [exact Ht|]. apply existsb_exists in Hq as [s' [Hs' H]].
+        apply (IH' s' Hs') in H as [q' H]. exists s'. split; [exact Hs'|]. exists q, q'. split; [exact H|].
+        assert (q' = q) by (eapply sma_plain; [apply (Hplain s' Hs') | exact H]). subst q'.
+        apply reach_ancestor in Hr. apply Hr.
+      * intros [_ [s' [Hs' [p' [q' [H Ha]]]]]].
+        assert (q' = p') by (eapply sma_plain; [apply (Hplain s' Hs') | exact H]). subst q'.
+        assert (Hm : matches d s' p' = true) by (apply (IH' s' Hs'); exists p'; exact H).
+        exists p'. split.
+        -- apply reach_ancestor. split; [exact Ha|]. destruct (matches_valid s' p' Hm) as [c [Hc _]]. eauto.
+        -- apply existsb_exists. exists s'. auto.
+    + rewrite has_child_match_spec, some_of_map. split.
+      * intros [k [Hk Hq]]. split; [exact Ht|]. apply existsb_exists in Hq as [s' [Hs' H]].
+        apply (IH' s' Hs') in H as [q' H]. exists s'. split; [exact Hs'|]. exists k, q'. exact H.
+      * intros [_ [s' [Hs' [k [q' H]]]]].
+        assert (Hm : matches d s' (k :: p) = true) by (apply (IH' s' Hs'); exists q'; exact H).
+        exists k. split.
+        -- destruct (matches_valid s' (k :: p) Hm) as [c [Hc _]]. rewrite node_at_cons, En in Hc.
+           apply nth_error_Some. congruence.
+        -- apply existsb_exists. exists s'. auto.
+  - (* compound *)
+    unfold spec_matches. cbn [sma matches].
+    assert (IH' : forall s', In s' sels -> forall p, matches d s' p = true <-> spec_matches d s' p).
+    { intros s' Hs'. rewrite Forall_forall in IH. apply (IH s' Hs').
+      - eapply everywhere_compound; eauto.
+      - destruct Hblank as [H|H]; [left; exact H | right; eapply everywhere_compound; eauto]. }
+    rewrite ex_eq_l. destruct sels as [|s1 r].
+    + rewrite elem_at_iff. unfold is_element. split.
+      * intros [n H]. exists n. split; [exact H | intros m []].
+      * intros [n [H _]]. eauto.
+    + rewrite forallb_forall. split.
+      * intros H. destruct (matches_valid s1 p (H s1 (or_introl eq_refl))) as [n Hn]. exists n.
+        split; [exact Hn|]. apply each_of_map. intros s' Hs'. apply (IH' s' Hs'). apply H. exact Hs'.
+      * intros [n [Hn H]] s' Hs'. rewrite each_of_map in H. apply (IH' s' Hs'). apply H. exact Hs'.
+  - (* combinators *)
+    apply everywhere_combined in Hhas as [Hha Hhb].
+    assert (Hba : doc_attrs_not_blank d \/ everywhere substr_val_ok a)
+      by (destruct Hblank as [H|H]; [left; exact H | right; apply everywhere_combined in H; apply H]).
+    assert (Hbb : doc_attrs_not_blank d \/ everywhere substr_val_ok b)
+      by (destruct Hblank as [H|H]; [left; exact H | right; apply everywhere_combined in H; apply H]).
+    specialize (IHa Hha Hba). specialize (IHb Hhb Hbb).
+    rewrite combined_split. cbn [matches]. destruct c; cbn [combinator_rel].
+    + unfold descendant_match. rewrite andb_true_iff, any_ancestor_spec, IHb. split.
+      * intros [Hb [q [Hq Ha]]]. split; [exact Hb|]. exists q. split; [exact Hq | apply IHa; exact Ha].
+      * intros [Hb [q [Hq Ha]]]. split; [exact Hb|]. exists q. split; [exact Hq | apply IHa; exact Ha].
+    + unfold child_match, parent. rewrite andb_true_iff, IHb. split.
+      * intros [Hb Ha]. split; [exact Hb|]. destruct p as [|k q]; [discriminate|].
+        exists q. split; [exists k; reflexivity | apply IHa; exact Ha].
+      * intros [Hb [q [[k ->] Ha]]]. split; [exact Hb | apply IHa; exact Ha].
+    + unfold sibling_match. rewrite andb_true_iff, IHb. split.
+      * intros [Hb Ha]. split; [exact Hb|]. destruct p as [|k q]; [discriminate|].
+        apply adjacent_loop_spec in Ha as [j [Hj [Hm [[s [Es Hs]] Hbetween]]]].
+        exists (j :: q). split; [|apply IHa; exact Hm].
+        exists j, k, q. repeat split; try reflexivity; [exact Hj | apply (matches_valid a _ Hm) |].
+        intros i Hi [c Hc]. exact (element_not_skippable _ _ Hc (Hbetween i Hi)).
+      * intros [Hb [r [[j [k [q [-> [-> [Hj [[e [Ee Ete]] Hbetween]]]]]]] Ha]]]. split; [exact Hb|].
+        apply adjacent_loop_spec. exists j. repeat split; [exact Hj | apply IHa; exact Ha | |].
+        -- exists e. split; [exact Ee|]. unfold is_text, is_comment. rewrite Ete. reflexivity.
+        -- intros i Hi.
+           destruct Hb as [qb Hb]. 
+           assert (Hv : exists c, node_at d (k :: q) = Some c).
+           { assert (Hm : matches d b (k :: q) = true) by (apply IHb; exists qb; exact Hb).
+             destruct (matches_valid b _ Hm) as [c [Hc _]]. eauto. }
+           destruct Hv as [c Hc]. destruct (node_at_parent d _ _ _ Hc) as [par [Hpar Hk]].
+           assert (Hi' : (i < length (kids_of par))%nat).
+           { assert (k < length (kids_of par))%nat by (apply nth_error_Some; congruence). lia. }
+           destruct (nth_error (kids_of par) i) as [ci|] eqn:Eci; [|apply nth_error_None in Eci; lia].
+           assert (Hci : node_at d (i :: q) = Some ci) by (rewrite node_at_cons, Hpar; exact Eci).
+           exists ci. split; [exact Hci|].
+           destruct (wf_doctype d Hwf q j i ci e) as [T|[T|T]]; try assumption; try lia.
+           ++ exfalso. apply (Hbetween i Hi). exists ci. split; assumption.
+           ++ unfold is_text. rewrite T. reflexivity.
+           ++ unfold is_text, is_comment. rewrite T. reflexivity.
+    + unfold sibling_match. rewrite andb_true_iff, IHb. unfold earlier_sibling. split.
+      * intros [Hb Ha]. split; [exact Hb|]. destruct p as [|k q]; [discriminate|].
+        apply any_prev_spec in Ha as [j [Hj Hm]]. exists (j :: q).
+        split; [exists j, k, q; auto | apply IHa; exact Hm].
+      * intros [Hb [r [[j [k [q [-> [-> Hj]]]]] Ha]]]. split; [exact Hb|].
+        apply any_prev_spec. exists j. split; [exact Hj | apply IHa; exact Ha].
+Qed.
+
+(* matches_spec: on every tree with the invariants of html.Parse, for every selector
+   outside the two stated deviations, and every node: the code's answer is the
+   Selectors-4 relation *)
+Theorem matches_spec : forall s p, sel_supported d s ->
+  (matches d s p = true <-> spec_matches d s p).
+Proof. intros s p [H1 H2]. apply matches_spec_aux; assumption. Qed.
+
+Theorem matches_group_spec : forall g p, (forall s, In s g -> sel_supported d s) ->
+  (matches_group d g p = true <-> spec_matches_group d g p).
+Proof.
+  intros g p H. unfold matches_group, spec_matches_group. rewrite existsb_exists.
+  split; intros [s [Hs Hm]]; exists s; (split; [exact Hs|]); apply (matches_spec s p (H s Hs)); exact Hm.
+Qed.
+
+End Main.
+
+(* ------------------------------------------------------------------ the boolean tree check implies dom_wf *)
+
+Lemma wf_node_unfold pe n :
+  wf_node pe n =
+  (if is_elem n then Bool.eqb (str_eqb (data_of n) s_html) (negb pe) else true) &&
+  (match kids_of n with [] => true | _ => is_elem n end) &&
+  sib_ok false (kids_of n) && forallb (wf_node (is_elem n)) (kids_of n).
+Proof.
+  destruct n as [ty data attrs kids]. simpl. f_equal.
+  all: try (induction kids as [|c r IH]; simpl; [reflexivity | f_equal; exact IH]).
+Qed.
+
+Lemma sib_ok_spec : forall l seen, sib_ok seen l = true ->
+  forall j k e c, j < k -> nth_error l j = Some e -> is_elem e = true -> nth_error l k = Some c ->
+  (is_elem c || is_text c || is_comment c) = true.
+Proof.
+  assert (Hseen : forall l c k, sib_ok true l = true -> nth_error l k = Some c ->
+                  (is_elem c || is_text c || is_comment c) = true).
+  { induction l as [|x l IH]; intros c k H Hk; [destruct k; discriminate|].
+    simpl in H. apply andb_true_iff in H as [H1 H2]. destruct k as [|k]; simpl in Hk.
+    - injection Hk as <-. exact H1.
+    - eapply IH; eauto. }
+  induction l as [|x l IH]; intros seen H j k e c Hjk Hj He Hk; [destruct j; discriminate|].
+  simpl in H. apply andb_true_iff in H as [H1 H2].
+  destruct k as [|k]; [lia|]. simpl in Hk. destruct j as [|j]; simpl in Hj.
+  - injection Hj as <-. rewrite He, orb_true_r in H2. eapply Hseen; eauto.
+  - eapply IH; [exact H2 | | exact Hj | exact He | exact Hk]. lia.
+Qed.
+
+Section WfSound.
+Variable d : node.
+Hypothesis Hb : dom_wfb d = true.
+
+Lemma wfb_root : ntype_of d = TDocument.
+Proof. unfold dom_wfb in Hb. destruct (ntype_of d); try discriminate. reflexivity. Qed.
+
+Lemma wfb_node : forall p k n, node_at d (k :: p) = Some n -> wf_node (elem_at d p) n = true.
+Proof.
+  induction p as [|k0 q IH]; intros k n Hn.
+  - unfold elem_at, get. simpl in *. unfold dom_wfb in Hb. pose proof wfb_root as Hr. rewrite Hr in Hb.
+    apply andb_true_iff in Hb as [_ Hall]. rewrite forallb_forall in Hall.
+    unfold is_elem. rewrite Hr. apply Hall. eapply nth_error_In. exact Hn.
+  - destruct (node_at_parent d _ _ _ Hn) as [par [Hpar Hk]].
+    pose proof (IH k0 par Hpar) as Hw. rewrite wf_node_unfold in Hw.
+    apply andb_true_iff in Hw as [_ Hall]. rewrite forallb_forall in Hall.
+    unfold elem_at, get. rewrite Hpar. apply Hall. eapply nth_error_In. exact Hk.
+Qed.
+
+Lemma wfb_sibs : forall q par, node_at d q = Some par -> sib_ok false (kids_of par) = true.
+Proof.
+  intros [|k q] par Hpar.
+  - simpl in Hpar. injection Hpar as <-. unfold dom_wfb in Hb. rewrite wfb_root in Hb.
+    apply andb_true_iff in Hb as [H _]. exact H.
+  - pose proof (wfb_node q k par Hpar) as Hw. rewrite wf_node_unfold in Hw.
+    apply andb_true_iff in Hw as [Hw _]. apply andb_true_iff in Hw as [_ Hw]. exact Hw.
+Qed.
+
+Theorem dom_wfb_sound : dom_wf d.
+Proof.
+  constructor.
+  - exact wfb_root.
+  - intros p n Hn Ht. destruct p as [|k q].
+    + simpl in Hn. injection Hn as <-. rewrite wfb_root in Ht. discriminate.
+    + pose proof (wfb_node q k n Hn) as Hw. rewrite wf_node_unfold in Hw.
+      apply andb_true_iff in Hw as [Hw _]. apply andb_true_iff in Hw as [Hw _]. apply andb_true_iff in Hw as [Hw _].
+      assert (He : is_elem n = true) by (apply is_elem_iff; exact Ht). rewrite He in Hw.
+      apply Bool.eqb_prop in Hw. unfold root_element, parent. split.
+      * intros Hd q' [k' E] Hq'. injection E as <- <-. apply elem_at_iff in Hq'.
+        rewrite Hq' in Hw. simpl in Hw. apply str_eqb_neq in Hw. contradiction.
+      * intros Hr. destruct (elem_at d q) eqn:Eq.
+        -- exfalso. apply (Hr q); [exists k; reflexivity | apply elem_at_iff; exact Eq].
+        -- simpl in Hw. apply str_eqb_eq. exact Hw.
+  - intros p n Hn Hk. destruct p as [|k q]; [left; reflexivity | right].
+    pose proof (wfb_node q k n Hn) as Hw. rewrite wf_node_unfold in Hw.
+    apply andb_true_iff in Hw as [Hw _]. apply andb_true_iff in Hw as [Hw _]. apply andb_true_iff in Hw as [_ Hw].
+    destruct (kids_of n); [contradiction | apply is_elem_iff; exact Hw].
+  - intros q j k c e Hjk He Hte Hc.
+    destruct (node_at_parent d _ _ _ He) as [par [Hpar Hj]].
+    destruct (node_at_parent d _ _ _ Hc) as [par' [Hpar' Hk]]. rewrite Hpar in Hpar'. injection Hpar' as <-.
+    pose proof (sib_ok_spec _ _ (wfb_sibs q par Hpar) j k e c Hjk Hj (proj2 (is_elem_iff e) Hte) Hk) as H.
+    unfold is_elem, is_text, is_comment in H. destruct (ntype_of c); try discriminate; auto.
+Qed.
+End WfSound.
+
+(* ------------------------------------------------------------------ specificity *)
+
+Open Scope Z_scope.
+
+Lemma spec3_eq x y : sp_a x = sp_a y -> sp_b x = sp_b y -> sp_c x = sp_c y -> x = y.
+Proof. destruct x, y; simpl; intros; subst; reflexivity. Qed.
+
+Lemma spec_add_plus3 x y : spec_add x y = plus3 x y.
+Proof. reflexivity. Qed.
+
+Definition nonneg3 (x : spec3) : Prop := 0 <= sp_a x /\ 0 <= sp_b x /\ 0 <= sp_c x.
+
+Lemma spec_less_lex x y : spec_less x y = true <-> lex_le x y /\ x <> y.
+Proof.
+  unfold spec_less, lex_le. destruct x as [a b c], y as [a' b' c']; simpl.
+  destruct (Z.ltb_spec a a') as [La|La]; [split; [intros _; split; [lia | intros E; injection E; lia] | reflexivity]|].
+  destruct (Z.gtb_spec a a') as [Ga|Ga]; [split; [discriminate | intros [Hle _]; lia]|].
+  destruct (Z.ltb_spec b b') as [Lb|Lb]; [split; [intros _; split; [lia | intros E; injection E; lia] | reflexivity]|].
+  destruct (Z.gtb_spec b b') as [Gb|Gb]; [split; [discriminate | intros [Hle _]; lia]|].
+  destruct (Z.ltb_spec c c') as [Lc|Lc]; [split; [intros _; split; [lia | intros E; injection E; lia] | reflexivity]|].
+  split; [discriminate|]. intros [Hle Hne]. exfalso. apply Hne. f_equal; lia.
+Qed.
+
+Lemma lex_le_refl x : lex_le x x.
+Proof. unfold lex_le. lia. Qed.
+Lemma lex_le_trans x y z : lex_le x y -> lex_le y z -> lex_le x z.
+Proof. unfold lex_le. lia. Qed.
+Lemma lex_le_total x y : lex_le x y \/ lex_le y x.
+Proof. unfold lex_le. lia. Qed.
+Lemma lex_le_antisym x y : lex_le x y -> lex_le y x -> x = y.
+Proof. unfold lex_le. intros H1 H2. apply spec3_eq; lia. Qed.
+
+(* the comparison used by the cascade is a strict total order *)
+Theorem specificity_order_total :
+  (forall x, spec_less x x = false) /\
+  (forall x y z, spec_less x y = true -> spec_less y z = true -> spec_less x z = true) /\
+  (forall x y, spec_less x y = true \/ x = y \/ spec_less y x = true) /\
+  (forall x y, spec_less x y = true -> spec_less y x = false).
+Proof.
+  repeat split.
+  - intros x. apply not_true_iff_false. intros H. apply spec_less_lex in H as [_ H]. apply H. reflexivity.
+  - intros x y z H1 H2. apply spec_less_lex in H1 as [H1 N1]. apply spec_less_lex in H2 as [H2 N2].
+    apply spec_less_lex. split; [eapply lex_le_trans; eassumption|].
+    intros ->. apply N1. apply lex_le_antisym; assumption.
+  - intros x y. destruct (lex_le_total x y) as [H|H].
+    + destruct (spec_less x y) eqn:E; [left; reflexivity|]. right. left.
+      destruct (lex_le_total y x) as [H'|H']; [apply lex_le_antisym; assumption|].
+      apply lex_le_antisym; [exact H|]. 
+      destruct (spec_less y x) eqn:E'; [apply spec_less_lex in E'; apply E' | ].
+      unfold lex_le, spec_less in *. destruct x, y; simpl in *.
+      repeat match goal with H : context [Z.ltb ?a ?b] |- _ => destruct (Z.ltb_spec a b) end;
+      repeat match goal with H : context [Z.gtb ?a ?b] |- _ => destruct (Z.gtb_spec a b) end; try discriminate; lia.
+    + destruct (spec_less y x) eqn:E; [right; right; reflexivity|]. right. left.
+      unfold lex_le, spec_less in *. destruct x, y; simpl in *.
+      repeat match goal with H : context [Z.ltb ?a ?b] |- _ => destruct (Z.ltb_spec a b) end;
+      repeat match goal with H : context [Z.gtb ?a ?b] |- _ => destruct (Z.gtb_spec a b) end; try discriminate; f_equal; lia.
+  - intros x y H. apply not_true_iff_false. intros H'.
+    apply spec_less_lex in H as [H N]. apply spec_less_lex in H' as [H' _]. apply N. apply lex_le_antisym; assumption.
+Qed.
+
+Lemma nonneg_plus x y : nonneg3 x -> nonneg3 y -> nonneg3 (plus3 x y).
+Proof. unfold nonneg3. destruct x, y; simpl. lia. Qed.
+
+Definition max_step (mx n : spec3) : spec3 := if spec_less mx n then n else mx.
+
+Lemma fold_max_spec : forall (l : list spec3) (acc : spec3),
+  let m := fold_left max_step l acc in
+  (m = acc \/ In m l) /\ lex_le acc m /\ forall x, In x l -> lex_le x m.
+Proof.
+  induction l as [|n l IH]; intros acc; simpl.
+  - repeat split; [left; reflexivity | apply lex_le_refl | intros x []].
+  - destruct (IH (max_step acc n)) as [H1 [H2 H3]].
+    assert (Hacc : lex_le acc (max_step acc n) /\ lex_le n (max_step acc n) /\ (max_step acc n = acc \/ max_step acc n = n)).
+    { unfold max_step. destruct (spec_less acc n) eqn:E.
+      - apply spec_less_lex in E as [E _]. repeat split; [exact E | apply lex_le_refl | right; reflexivity].
+      - repeat split; [apply lex_le_refl | | left; reflexivity].
+        destruct (lex_le_total n acc) as [H|H]; [exact H|].
+        assert (n = acc). { destruct (specificity_order_total) as [_ [_ [T _]]]. destruct (T acc n) as [T1|[T1|T1]]; [congruence | auto |].
+          apply spec_less_lex in T1 as [T1 _]. apply lex_le_antisym; assumption. }
+        subst. apply lex_le_refl. }
+    destruct Hacc as [A1 [A2 A3]]. repeat split.
+    + destruct H1 as [H1|H1]; [|right; right; exact H1]. rewrite H1. destruct A3 as [->| ->]; [left; reflexivity | right; left; reflexivity].
+    + eapply lex_le_trans; eassumption.
+    + intros x [<-|Hx]; [eapply lex_le_trans; eassumption | apply H3; exact Hx].
+Qed.
+
+Lemma fold_left_max_map g acc :
+  fold_left (fun mx s' => let n := specificity s' in if spec_less mx n then n else mx) g acc
+  = fold_left max_step (map specificity g) acc.
+Proof. revert acc; induction g as [|s g IH]; intros acc; simpl; [reflexivity | apply IH]. Qed.
+
+Lemma fold_left_add_map sels acc :
+  fold_left (fun out s' => spec_add out (specificity s')) sels acc
+  = plus3 acc (fold_right plus3 (S3 0 0 0) (map specificity sels)).
+Proof.
+  revert acc; induction sels as [|s sels IH]; intros acc; simpl.
+  - apply spec3_eq; simpl; lia.
+  - rewrite IH. apply spec3_eq; simpl; lia.
+Qed.
+
+Lemma specificity_nonneg : forall s, nonneg3 (specificity s).
+Proof.
+  induction s as [s Hs | name g IH | sels pe IH | a c b IHa IHb] using sel_ind'.
+  - destruct s; try contradiction; simpl; unfold nonneg3; simpl; lia.
+  - simpl. rewrite fold_left_max_map.
+    destruct (fold_max_spec (map specificity g) spec_zero) as [[H|H] _].
+    + rewrite H. unfold nonneg3, spec_zero; simpl; lia.
+    + apply in_map_iff in H as [s' [<- Hs']]. rewrite Forall_forall in IH. apply IH. exact Hs'.
+  - simpl. rewrite fold_left_add_map.
+    assert (H : nonneg3 (fold_right plus3 (S3 0 0 0) (map specificity sels))).
+    { induction IH as [|s sels Hs _ IH']; simpl; [unfold nonneg3; simpl; lia | apply nonneg_plus; assumption]. }
+    destruct pe; repeat apply nonneg_plus; try exact H; unfold nonneg3, spec_zero; simpl; lia.
+  - simpl. apply nonneg_plus; assumption.
+Qed.
+
+Theorem specificity_spec : forall s, has_specificity s (specificity s).
+Proof.
+  induction s as [s Hs | name g IH | sels pe IH | a c b IHa IHb] using sel_ind'.
+  - destruct s; try contradiction; simpl; try constructor; try exact I.
+  - simpl. rewrite fold_left_max_map. apply (hs_rel name g (map specificity g)).
+    + induction IH; simpl; constructor; assumption.
+    + destruct (fold_max_spec (map specificity g) spec_zero) as [[H|H] [H2 H3]].
+      * destruct g as [|s0 g0]; [left; split; [reflexivity | exact H]|]. right. split; [|exact H3].
+        (* the maximum is the initial (0,0,0): every argument has specificity (0,0,0) *)
+        rewrite H. simpl. left.
+        assert (Hle : lex_le (specificity s0) spec_zero) by (rewrite <- H; apply H3; left; reflexivity).
+        pose proof (specificity_nonneg s0) as Hnn. unfold lex_le, nonneg3, spec_zero in *. simpl in *.
+        apply spec3_eq; simpl; lia.
+      * right. split; [exact H | exact H3].
+  - simpl. rewrite fold_left_add_map.
+    replace (match pe with [] => plus3 spec_zero (fold_right plus3 (S3 0 0 0) (map specificity sels))
+                         | _ :: _ => spec_add (plus3 spec_zero (fold_right plus3 (S3 0 0 0) (map specificity sels))) (S3 0 0 1) end)
+      with (plus3 (fold_right plus3 (S3 0 0 0) (map specificity sels)) (match pe with [] => S3 0 0 0 | _ => S3 0 0 1 end)).
+    + apply hs_compound. induction IH; simpl; constructor; assumption.
+    + destruct pe; apply spec3_eq; simpl; lia.
+  - simpl. apply hs_combined; assumption.
+Qed.
+
+(* has_specificity determines the triple (up to the choice among equal maxima): the relation is functional *)
+Lemma most_specific_unique l m m' : most_specific l m -> most_specific l m' -> m = m'.
+Proof.
+  intros [[-> ->]|[H1 H2]] [[E ->]|[H1' H2']]; try reflexivity; try (subst; destruct H1; fail); try (destruct H1'; fail).
+  apply lex_le_antisym; auto.
+Qed.
+
+Lemma Forall2_unique {A B} (R : A -> B -> Prop) (g : list A) :
+  Forall (fun s => forall x y, R s x -> R s y -> x = y) g ->
+  forall l l', Forall2 R g l -> Forall2 R g l' -> l = l'.
+Proof.
+  intros IH. induction IH as [|s0 g0 Hs0 _ IHg]; intros l l' F F'; inversion F; inversion F'; subst; [reflexivity|].
+  f_equal; [eapply Hs0; eassumption | apply IHg; assumption].
+Qed.
+
+Theorem has_specificity_unique : forall s x y, has_specificity s x -> has_specificity s y -> x = y.
+Proof.
+  induction s as [s Hs | name g IH | sels pe IH | a c b IHa IHb] using sel_ind'; intros x y Hx Hy.
+  - destruct s; try contradiction; inversion Hx; inversion Hy; subst; try reflexivity; try contradiction.
+  - inversion Hx as [| | | |? ? l m F M| ? Hp | |]; subst; [|contradiction].
+    inversion Hy as [| | | |? ? l' m' F' M'| ? Hp | |]; subst; [|contradiction].
+    assert (l = l') by (eapply Forall2_unique; eassumption).
+    subst. eapply most_specific_unique; eassumption.
+  - inversion Hx as [| | | | | ? Hp |? ? l F|]; subst; [contradiction|].
+    inversion Hy as [| | | | | ? Hp |? ? l' F'|]; subst; [contradiction|].
+    assert (l = l') by (eapply Forall2_unique; eassumption).
+    subst. reflexivity.
+  - inversion Hx; subst; [contradiction|]. inversion Hy; subst; [contradiction|].
+    f_equal; [apply IHa | apply IHb]; assumption.
+Qed.
+
+Close Scope Z_scope.
+
+(* ------------------------------------------------------------------ the two deviations are real *)
+
+Definition bN (l : list N) : str := l.
+Definition t_section : str := [115;101;99;116;105;111;110]%N.
+Definition t_div : str := [100;105;118]%N.
+Definition t_p : str := [112]%N.
+Definition t_title : str := [116;105;116;108;101]%N.
+
+(* <html><section><div><p></p></div></section></html>, and div:has(section p) at the div *)
+Definition w_p := Node TElement t_p [] [].
+Definition w_div := Node TElement t_div [] [w_p].
+Definition w_doc1 := Node TDocument [] [] [Node TElement s_html [] [Node TElement t_section [] [w_div]]].
+Definition w_sel1 := SCompound [STag t_div; SRel RHas [SCombined (STag t_section) CDesc (STag t_p)]] [].
+Definition w_path1 : path := [0; 0; 0].
+
+Lemma w_below_aux : forall l n, node_at w_doc1 (l ++ w_path1) = Some n ->
+  (l = [] /\ n = w_div) \/ (l = [0] /\ n = w_p).
+Proof.
+  induction l as [|k l IH]; intros m Hm.
+  - left. cbv in Hm. injection Hm as <-. auto.
+  - change ((k :: l) ++ w_path1) with (k :: l ++ w_path1) in Hm. rewrite node_at_cons in Hm.
+    destruct (node_at w_doc1 (l ++ w_path1)) as [par|] eqn:E; [|discriminate].
+    destruct (IH par eq_refl) as [[-> ->]|[-> ->]].
+    + right. cbv [w_div kids_of] in Hm. destruct k as [|k]; [cbv in Hm; injection Hm as <-; auto | destruct k; discriminate].
+    + cbv [w_p kids_of] in Hm. destruct k; discriminate.
+Qed.
+
+Lemma w_below l n : l <> [] -> node_at w_doc1 (l ++ w_path1) = Some n -> n = w_p.
+Proof.
+  intros Hl Hn. destruct (w_below_aux l n Hn) as [[-> _]|[_ ->]]; [contradiction | reflexivity].
+Qed.
+
+(* :has() with a combinator in its argument: the code answers true where Selectors 4 says false *)
+Theorem has_relative_refuted :
+  exists d s p, dom_wf d /\ matches d s p = true /\ ~ spec_matches d s p.
+Proof.
+  exists w_doc1, w_sel1, w_path1. split; [apply dom_wfb_sound; vm_compute; reflexivity|].
+  split; [vm_compute; reflexivity|].
+  intros [q H]. unfold w_sel1 in H. cbn [sma] in H. destruct H as [_ [n [_ H]]].
+  pose proof (proj1 (each_of_map w_doc1 _ _) H) as H'. clear H. rename H' into H. specialize (H (SRel RHas [SCombined (STag t_section) CDesc (STag t_p)]) (or_intror (or_introl eq_refl))).
+  destruct H as [q' H]. cbn [sma] in H. destruct H as [_ [n' [_ H]]].
+  apply (proj1 (some_of_map w_doc1 _ _)) in H. destruct H as [s' [[<-|[]] H]]. destruct H as [p' [q'' [H Ha]]].
+  cbn [sma] in H. destruct H as [_ [r [_ [Hq [m [[Hm _] Hd]]]]]]. subst r.
+  destruct Ha as [l [Hl ->]]. pose proof (w_below l m Hl Hm) as ->. discriminate Hd.
+Qed.
+
+(* <html title="  ">, and [title^=" "] *)
+Definition w_doc2 := Node TDocument [] [] [Node TElement s_html [Attr t_title [32; 32]%N] []].
+Definition w_sel2 := SAttr t_title [32%N] OpPrefix false.
+
+(* a blank attribute value: the code answers false where Selectors 4 says true *)
+Theorem blank_attr_refuted :
+  exists d s p, dom_wf d /\ matches d s p = false /\ spec_matches d s p.
+Proof.
+  exists w_doc2, w_sel2, [0]. split; [apply dom_wfb_sound; vm_compute; reflexivity|].
+  split; [vm_compute; reflexivity|].
+  exists [0]. unfold w_sel2. cbn [sma]. split; [reflexivity|].
+  exists (Node TElement s_html [Attr t_title [32; 32]%N] []). split; [split; reflexivity|].
+  exists (Attr t_title [32; 32]%N). split; [left; reflexivity|]. split; [reflexivity|].
+  split; [discriminate|]. exists [32%N], [32%N]. split; reflexivity.
+Qed.
+
+(* the hypotheses of matches_spec are inhabited by a non-trivial case *)
+Example matches_spec_inhabited :
+  dom_wf w_doc1 /\ sel_supported w_doc1 (SCombined (STag t_section) CDesc (SCompound [STag t_p; SNth (-1) 1 false false] [])) /\
+  matches w_doc1 (SCombined (STag t_section) CDesc (SCompound [STag t_p; SNth (-1) 1 false false] [])) [0; 0; 0; 0] = true.
+Proof.
+  split; [apply dom_wfb_sound; vm_compute; reflexivity|]. split; [|vm_compute; reflexivity].
+  split.
+  - simpl. repeat split; try exact I; intros x [<-|[<-|[]]]; simpl; auto.
+  - right. simpl. repeat split; try exact I; intros x [<-|[<-|[]]]; simpl; auto.
+Qed.
